@@ -20,6 +20,9 @@ def main():
     if "--round3" in sys.argv:
         base = "/tmp/wt3"
         label = {"A": "E", "B": "F"}[x]
+    if "--round4" in sys.argv:
+        base = "/tmp/wt4"
+        label = {"A": "G"}[x]
     src = f"{base}/{prop}/seeded"
     patch = f"{src}/{x}.patch"
     demo = f"{src}/demo_{x.lower()}.rs"
